@@ -8,6 +8,7 @@ FILES = {
     "zz_verif_c08_test.go": "C08/c08_test.go",
     "zz_verif_c08_json_test.go": "C08/json_test.go",
     "zz_verif_c08_bytes_test.go": "C08/bytes_test.go",
+    "zz_verif_c08_jsonmodel_test.go": "C08/jsonmodel_test.go",
 }
 
 
@@ -47,14 +48,27 @@ class P(vlib.Prop):
     trusted_base = []
     assumptions = []
 
+    def match_known(self, finding, failure):
+        """As vlib.Prop.match_known, but a signature may list several oracle kinds under which the
+        same defect shows ('kinds')."""
+        import re
+        sig = finding.get("signature", {})
+        kinds = sig.get("kinds") or [sig.get("kind")]
+        if failure["kind"] not in kinds:
+            return False
+        rx = sig.get("detail_regex")
+        return not rx or re.search(rx, failure["detail"]) is not None
+
     def translate(self, ctx):
         """Dump the schema of the OTLP messages from the CURRENT tree (reflection over the generated
         structs + marshalling probes) into coq/Generated/OtlpProto.v."""
         tmp = os.path.join(ctx.work, "OtlpProto.v.new")
-        if os.path.exists(tmp):
-            os.remove(tmp)
+        tmpj = os.path.join(ctx.work, "C08JsonDecoders.v.new")
+        for t in (tmp, tmpj):
+            if os.path.exists(t):
+                os.remove(t)
         h = vlib.Harness("schema", MOD, PKG, FILES, "^TestVerifC08Schema$", "pprofileotlp", timeout=600,
-                         extra_env={"VERIF_C08_SCHEMA_OUT": tmp})
+                         extra_env={"VERIF_C08_SCHEMA_OUT": tmp, "VERIF_C08_JSON_OUT": tmpj})
         cases, oracle, stats, err = vlib.run_harness(ctx, h)
         if err or not os.path.exists(tmp):
             raise vlib.Broken("translator (schema dump by reflection) fails on the current tree: %s" % (err.what if err else "no output"),
@@ -67,6 +81,17 @@ class P(vlib.Prop):
             with vlib.CoqLock():
                 shutil.copyfile(tmp, dst)
         import hashlib
+        if not os.path.exists(tmpj):
+            raise vlib.Broken("translator (JSON decoder table by probing) produced no output", "")
+        dstj = os.path.join(vlib.COQ, "Generated", "C08JsonDecoders.v")
+        newj = open(tmpj).read()
+        if not os.path.exists(dstj) or open(dstj).read() != newj:
+            with vlib.CoqLock():
+                shutil.copyfile(tmpj, dstj)
+        ctx.translator_manifests.append({"file": "pdata/*/json.go, pdata/internal/json/*.go (decoder table observed by running the decoders on one minimal document per message x key x token form)", "lines": None,
+                                         "sha256": hashlib.sha256(newj.encode()).hexdigest(),
+                                         "defines": "Generated/C08JsonDecoders.v: OtlpJsonDecoders (%d entries), OtlpJsonReachable (%d messages), OtlpEnums" % (stats.get("json_decoder_entries", 0), stats.get("json_reachable_messages", 0)),
+                                         "params": None})
         ctx.translator_manifests.append({"file": "pdata/internal/data/protogen/** (reflection, go test -overlay)", "lines": None,
                                          "sha256": hashlib.sha256(new.encode()).hexdigest(),
                                          "defines": "Generated/OtlpProto.v: OtlpSchema (%d messages, %d fields)" % (stats.get("schema_messages", 0), stats.get("schema_fields", 0)),
